@@ -4,6 +4,7 @@
 // the empty memory; and the lemma "loading at base B = loading at base 0, shifted by B".
 // ======================================================================================
 
+pub type Parsed<'a> = goblin::elf::Elf<'a>;
 pub type ProgramHeader = goblin::elf::program_header::ProgramHeader;
 pub type ByteMap = IMap<u64, (u8, MemoryPermissions)>;
 
